@@ -8,3 +8,4 @@ require (
 	golang.org/x/mod v0.41.0 // indirect
 	golang.org/x/sync v0.23.0 // indirect
 )
+require github.com/cespare/xxhash/v2 v2.3.0
